@@ -306,3 +306,21 @@ ANCHORS = [('swh/model/git_objects.py', 'directory_entry_sort_key'),
            ('swh/model/model.py', 'DirectoryEntry.check_name'),
            ('swh/model/model.py', 'Directory.check_entries'),
            ('swh/model/model.py', 'Directory._compute_hash_from_attributes')]
+
+
+def coq_cases(cases):
+    """mk_dir_manifest evaluated by vm_compute inside Coq vs the extracted driver (extraction cross-check)"""
+    from . import core
+    cases = [c for c in cases if len(c["entries"]) <= 8]
+    ty = {"file": "EFile", "dir": "EDir", "rev": "ERev"}
+    def nl(h):
+        return "[" + "; ".join("%d%%N" % b for b in bytes.fromhex(h)) + "]"
+    def coq_entries(es):
+        return "[" + "; ".join("{| e_name := %s; e_type := %s; e_target := %s; e_perms := %d%%N |}" % (nl(n), ty[t], nl(tg), p)
+                               for n, t, tg, p in es) + "]"
+    src = ("From Coq Require Import List NArith.\nFrom SWH.lib Require Import Bytes.\nFrom SWH.model Require Import Dir.\nImport ListNotations.\n" + core.COQ_CHECKSUM +
+           "\nDefinition cases : list (list entry) := [" + ";\n ".join(coq_entries(c["entries"]) for c in cases) + "].\n"
+           "Eval vm_compute in map (fun es => match mk_dir_manifest es with DirOk m => cksum m | DirValueError => 0%N end) cases.\n")
+    resp = core.run_driver(ID, ["dir " + enc_entries(c["entries"]) for c in cases])
+    exp = [core.py_cksum(unhx(r.split(" ")[1])) if r.startswith("ok ") else 0 for r in resp]
+    return src, exp
